@@ -53,6 +53,9 @@ FUNCTIONS = [
     ("json_util.c", "json_object_from_fd_ex"),
     ("json_tokener.c", "json_tokener_validate_utf8"),
     ("json_util.c", "json_parse_int64"),
+    ("json_tokener.c", "json_tokener_new_ex"),
+    ("printbuf.c", "printbuf_new"),
+    ("arraylist.c", "array_list_new2"),
 ]
 
 
@@ -264,6 +267,9 @@ class Fn:
                 kk, bits, _ = ctype(at)
                 if kk in ("I", "P", "F") and bits:
                     return k(lit(bits // 8), env)
+                rq = re.sub(r"\s+", " ", re.sub(r"\b(const|volatile)\b", "", (at or {}).get("desugaredQualType", (at or {}).get("qualType", ""))).strip())
+                if rq in RECORD_SIZES:
+                    return k(lit(RECORD_SIZES[rq]), env)
             raise Untranslatable("sizeof of a type whose size the translator does not know")
         if kind == "ImplicitCastExpr" or kind == "CStyleCastExpr":
             ck = n.get("castKind")
@@ -1049,6 +1055,11 @@ def record_types(n, acc):
         m = re.fullmatch(r"((?:struct|union) \w+) \*+", re.sub(r"\s+", " ", q))
         if m:
             acc.add(m.group(1))
+        if n.get("kind") == "UnaryExprOrTypeTraitExpr" and n.get("argType"):
+            aq = n["argType"].get("desugaredQualType", n["argType"].get("qualType", ""))
+            aq = re.sub(r"\s+", " ", re.sub(r"\b(const|volatile)\b", "", aq).strip())
+            if re.fullmatch(r"(?:struct|union) \w+", aq):
+                acc.add(aq)
         for c in n.get("inner", []):
             record_types(c, acc)
     return acc
